@@ -240,6 +240,14 @@ func c10Gen(tier string, seed int64) []core.Case {
 				add(core.P{"sys": "schnorrV", "curve": curve, "w": w, "w2": ws[(wi+2)%len(ws)], "sess": s, "reps": tierN(tier, 3, 20)}, 0.2)
 			}
 		}
+		// Schnorr-V admits a zero witness in either slot (V = l*G or V = s*R), not in both
+		for si, s := range sessions {
+			if tier != "thorough" && si%2 == 1 {
+				continue
+			}
+			add(core.P{"sys": "schnorrV", "curve": curve, "w": "0", "w2": "seeded", "sess": s, "reps": 2}, 0.2)
+			add(core.P{"sys": "schnorrV", "curve": curve, "w": "q-1", "w2": "0", "sess": s, "reps": 2}, 0.2)
+		}
 	}
 	sets := []int{0, 1, 2, 3, 4, -1}
 	for _, a := range sets {
@@ -257,6 +265,14 @@ func c10Gen(tier string, seed int64) []core.Case {
 			}
 			add(core.P{"sys": "mod", "a": a, "b": other, "sess": s, "reps": tierN(tier, 1, 3)}, 3)
 		}
+	}
+	// the curve is a parameter of these proof systems: a second registered curve must work as well
+	for pi, pr := range [][2]int{{0, 1}, {2, 3}, {4, 0}} {
+		s := sessions[pi%len(sessions)]
+		add(core.P{"sys": "fac", "a": pr[0], "b": pr[1], "sess": s, "curve": "ed25519", "reps": 1}, 1)
+		add(core.P{"sys": "alice", "a": pr[0], "b": pr[1], "w": "seeded", "curve": "ed25519", "reps": 1}, 1)
+		add(core.P{"sys": "bob", "a": pr[0], "b": pr[1], "w": "seeded", "w2": "seeded", "sess": s, "curve": "ed25519", "reps": 1}, 1.5)
+		add(core.P{"sys": "bob-wc", "a": pr[0], "b": pr[1], "w": "q-1", "w2": "seeded", "sess": s, "curve": "ed25519", "reps": 1}, 1.5)
 	}
 	pairs := pairList(tier)
 	pairs = append(pairs, [2]int{-1, 0}, [2]int{0, -1}, [2]int{-1, -1})
